@@ -74,6 +74,8 @@ pub mod limiting;
 pub mod prelude;
 pub mod read;
 pub mod shutdown;
+#[cfg(feature = "verif-hooks")]
+pub mod verif;
 #[cfg(all(feature = "uring", feature = "http3"))]
 mod uring_udp;
 pub mod vary;
@@ -526,6 +528,8 @@ impl RunConfig {
                     accept(listener(), descriptor, &shutdown_manager, true)
                         .await
                         .expect("Failed to accept message!");
+                    #[cfg(feature = "verif-hooks")]
+                    crate::verif::point("al.exit", 0);
                 };
 
                 let _task = spawn(future).await;
@@ -657,8 +661,12 @@ async fn accept(
     let mut fails_without_accepting = 0usize;
     let fails_without_accepting_threshold = 100;
     loop {
+        #[cfg(feature = "verif-hooks")]
+        crate::verif::point("al.top", i64::from(local_addr.port()));
         let (stream, addr) = match listener.accept(shutdown_manager).await {
             AcceptAction::Shutdown => {
+                #[cfg(feature = "verif-hooks")]
+                crate::verif::point("al.shut", i64::from(local_addr.port()));
                 if first {
                     info!(
                         "Closing listener on port {} with {}",
@@ -721,6 +729,8 @@ async fn accept(
         };
 
         fails_without_accepting = 0;
+        #[cfg(feature = "verif-hooks")]
+        crate::verif::point("al.got", i64::from(addr.port()));
 
         debug!(
             "Accepting stream from {addr:?}: {}",
@@ -747,7 +757,11 @@ async fn accept(
         // release its own count (see `RunConfig::execute`) before the task has started.
         #[cfg(feature = "graceful-shutdown")]
         let connection = shutdown::ConnectionGuard::new(&shutdown_manager);
+        #[cfg(feature = "verif-hooks")]
+        crate::verif::point("al.counted", i64::from(addr.port()));
         let _task = spawn(async move {
+            #[cfg(feature = "verif-hooks")]
+            crate::verif::point("co.start", i64::from(addr.port()));
             // released when this task ends, also if the handler panics
             #[cfg(feature = "graceful-shutdown")]
             let _connection = connection;
